@@ -10,7 +10,9 @@ import (
 	"bytes"
 	"fmt"
 	"go/ast"
+	"go/constant"
 	"go/printer"
+	"go/token"
 	"regexp"
 	"strconv"
 	"strings"
@@ -88,6 +90,365 @@ func c11FirstEncoderList(fd *ast.FuncDecl) []int {
 	return res
 }
 
+// c11Conjuncts flattens a && b && c
+func c11Conjuncts(e ast.Expr) []ast.Expr {
+	if p, ok := e.(*ast.ParenExpr); ok {
+		return c11Conjuncts(p.X)
+	}
+	if b, ok := e.(*ast.BinaryExpr); ok && b.Op == token.LAND {
+		return append(c11Conjuncts(b.X), c11Conjuncts(b.Y)...)
+	}
+	return []ast.Expr{e}
+}
+
+func c11IsClosedCheck(e ast.Expr) bool {
+	u, ok := e.(*ast.UnaryExpr)
+	if !ok || u.Op != token.NOT {
+		return false
+	}
+	c, ok := u.X.(*ast.CallExpr)
+	if !ok || len(c.Args) != 0 {
+		return false
+	}
+	sel, ok := c.Fun.(*ast.SelectorExpr)
+	return ok && sel.Sel.Name == "Closed"
+}
+
+func c11Int(e ast.Expr, en env) (int, bool) {
+	v := evalExpr(e, en)
+	if v == nil || v.Kind() == constant.Unknown {
+		return 0, false
+	}
+	i, ok := constant.Int64Val(constant.ToInt(v))
+	return int(i), ok
+}
+
+// c11RetryLoop recognises a counted retry loop: `for v := A; <conjunction>; v++` whose condition checks
+// `!x.Closed()` and bounds v by a constant expression (v < N, v <= N, N > v, N >= v; named constants of the
+// file are evaluated).  The name of the counter, the order of the conjuncts and parentheses do not matter.  Any
+// further conjunct could end the loop early, so it makes the loop unrecognised (ok=false, bad=true).
+func c11RetryLoop(f *ast.ForStmt, en env) (start, count int, ok, bad bool) {
+	as, isAs := f.Init.(*ast.AssignStmt)
+	inc, isInc := f.Post.(*ast.IncDecStmt)
+	if !isAs || !isInc || f.Cond == nil || as.Tok != token.DEFINE || len(as.Lhs) != 1 || len(as.Rhs) != 1 || inc.Tok != token.INC {
+		return
+	}
+	v, isId := as.Lhs[0].(*ast.Ident)
+	pv, isId2 := inc.X.(*ast.Ident)
+	if !isId || !isId2 || v.Name != pv.Name {
+		return
+	}
+	a, okA := c11Int(as.Rhs[0], en)
+	if !okA {
+		return
+	}
+	isV := func(e ast.Expr) bool { id, ok := e.(*ast.Ident); return ok && id.Name == v.Name }
+	closed, bounded, extra, limit := false, false, false, 0
+	for _, c := range c11Conjuncts(f.Cond) {
+		if c11IsClosedCheck(c) {
+			closed = true
+			continue
+		}
+		if b, isB := c.(*ast.BinaryExpr); isB && !bounded {
+			x, y, op := b.X, b.Y, b.Op
+			if isV(y) { // N > v, N >= v
+				x, y = y, x
+				switch op {
+				case token.GTR:
+					op = token.LSS
+				case token.GEQ:
+					op = token.LEQ
+				default:
+					op = token.ILLEGAL
+				}
+			}
+			if n, okN := c11Int(y, en); isV(x) && okN && (op == token.LSS || op == token.LEQ) {
+				limit, bounded = n, true
+				if op == token.LEQ {
+					limit++
+				}
+				continue
+			}
+		}
+		extra = true
+	}
+	if !closed {
+		return // some other loop (e.g. a byte compare), not a retry loop
+	}
+	if !bounded || extra {
+		return 0, 0, false, true
+	}
+	if limit < a {
+		limit = a
+	}
+	return a, limit - a, true, false
+}
+
+// c11FindRetryLoop: the first retry loop (source order) of fd; when fd has none, of the unexported functions and
+// methods of the same file that fd calls (one level - the loop may have been moved into a helper).
+func c11FindRetryLoop(where string, file *ast.File, fd *ast.FuncDecl, en env) (start, count int) {
+	search := func(n ast.Node) (int, int, bool, bool) {
+		var s, c int
+		found, bad := false, false
+		ast.Inspect(n, func(x ast.Node) bool {
+			if found || bad {
+				return false
+			}
+			if f, ok := x.(*ast.ForStmt); ok {
+				if a, cnt, ok, b := c11RetryLoop(f, en); ok {
+					s, c, found = a, cnt, true
+				} else if b {
+					bad = true
+				}
+			}
+			return true
+		})
+		return s, c, found, bad
+	}
+	s, c, found, bad := search(fd)
+	if !found && !bad {
+		for _, callee := range c11Callees(file, fd) {
+			if s, c, found, bad = search(callee); found || bad {
+				break
+			}
+		}
+	}
+	if bad {
+		fail("C11: %s: retry loop has a condition other than !Closed() && counter < constant", where)
+		return 0, 0
+	}
+	if !found {
+		fail("C11: %s: no counted retry loop (for v := A; !x.Closed() && v < N; v++) found", where)
+		return 0, 0
+	}
+	return s, c
+}
+
+// c11Callees: declarations (same file, unexported) of the functions/methods called in fd, in call order
+func c11Callees(file *ast.File, fd *ast.FuncDecl) []*ast.FuncDecl {
+	var res []*ast.FuncDecl
+	seen := map[string]bool{}
+	ast.Inspect(fd, func(x ast.Node) bool {
+		c, ok := x.(*ast.CallExpr)
+		if !ok {
+			return true
+		}
+		name := ""
+		switch f := c.Fun.(type) {
+		case *ast.Ident:
+			name = f.Name
+		case *ast.SelectorExpr:
+			name = f.Sel.Name
+		}
+		if name == "" || seen[name] || ast.IsExported(name) {
+			return true
+		}
+		seen[name] = true
+		for _, d := range file.Decls {
+			if g, ok := d.(*ast.FuncDecl); ok && g.Name.Name == name && g.Body != nil && g != fd {
+				res = append(res, g)
+			}
+		}
+		return true
+	})
+	return res
+}
+
+// c11Mentions: does e (outside of len(...) calls) mention a selector/identifier called name
+func c11Mentions(n ast.Node, name string) bool {
+	if n == nil {
+		return false
+	}
+	hit := false
+	ast.Inspect(n, func(x ast.Node) bool {
+		if hit {
+			return false
+		}
+		switch v := x.(type) {
+		case *ast.CallExpr:
+			if id, ok := v.Fun.(*ast.Ident); ok && id.Name == "len" {
+				return false
+			}
+		case *ast.SelectorExpr:
+			if v.Sel.Name == name {
+				hit = true
+			}
+		case *ast.Ident:
+			if v.Name == name {
+				hit = true
+			}
+		}
+		return true
+	})
+	return hit
+}
+
+// c11ElementwiseCompare: fd (a helper with at least two parameters) compares two of its parameters byte by byte
+// (p[k] != q[k] or p[k] == q[k]) or hands them to bytes.Equal / bytes.Compare
+func c11ElementwiseCompare(fd *ast.FuncDecl) bool {
+	params := map[string]bool{}
+	for _, f := range fd.Type.Params.List {
+		for _, n := range f.Names {
+			params[n.Name] = true
+		}
+	}
+	isParamIdx := func(e ast.Expr) bool {
+		ix, ok := e.(*ast.IndexExpr)
+		if !ok {
+			return false
+		}
+		id, ok := ix.X.(*ast.Ident)
+		return ok && params[id.Name]
+	}
+	hit := false
+	ast.Inspect(fd.Body, func(x ast.Node) bool {
+		switch v := x.(type) {
+		case *ast.BinaryExpr:
+			if (v.Op == token.NEQ || v.Op == token.EQL) && isParamIdx(v.X) && isParamIdx(v.Y) {
+				hit = true
+			}
+		case *ast.CallExpr:
+			if s := c11src(v.Fun); s == "bytes.Equal" || s == "bytes.Compare" {
+				hit = true
+			}
+		}
+		return !hit
+	})
+	return hit
+}
+
+// c11MismatchBranch finds, in fd, the branch taken when the reply's Data differs in CONTENT from
+// util.DownloadCodecCheck (not the length test: arguments of len() are ignored) and returns its body.  Accepted
+// forms of the test:  resp.Data[k] != util.DownloadCodecCheck[k]  (inside whatever loop);
+//
+//	!bytes.Equal(resp.Data, util.DownloadCodecCheck);  a same-file helper that compares its arguments byte by byte,
+//	called in the condition or the init statement, as  !helper(..)  or  helper(..) >= 0 / != -1 / > -1 (index of the
+//	first difference).
+func c11MismatchBranch(file *ast.File, fd *ast.FuncDecl) *ast.BlockStmt {
+	var res *ast.BlockStmt
+	bad := ""
+	ast.Inspect(fd, func(x ast.Node) bool {
+		if res != nil || bad != "" {
+			return false
+		}
+		is, ok := x.(*ast.IfStmt)
+		if !ok {
+			return true
+		}
+		if !((c11Mentions(is.Cond, "Data") || c11Mentions(is.Init, "Data")) && (c11Mentions(is.Cond, "DownloadCodecCheck") || c11Mentions(is.Init, "DownloadCodecCheck"))) {
+			return true
+		}
+		cond := is.Cond
+		for {
+			p, ok := cond.(*ast.ParenExpr)
+			if !ok {
+				break
+			}
+			cond = p.X
+		}
+		// the call that does the comparison, if any
+		var call *ast.CallExpr
+		ast.Inspect(is, func(y ast.Node) bool {
+			if y == is.Body || (is.Else != nil && y == is.Else) {
+				return false
+			}
+			if c, ok := y.(*ast.CallExpr); ok && call == nil && c11Mentions(c, "Data") && c11Mentions(c, "DownloadCodecCheck") {
+				call = c
+			}
+			return call == nil
+		})
+		if call == nil {
+			if b, ok := cond.(*ast.BinaryExpr); ok && b.Op == token.NEQ {
+				if _, ok1 := b.X.(*ast.IndexExpr); ok1 {
+					if _, ok2 := b.Y.(*ast.IndexExpr); ok2 {
+						res = is.Body
+						return false
+					}
+				}
+			}
+			bad = "the content test is neither an element-wise != nor a call: " + c11src(cond)
+			return false
+		}
+		fn := c11src(call.Fun)
+		if fn != "bytes.Equal" {
+			name := fn
+			if i := strings.LastIndex(name, "."); i >= 0 {
+				name = name[i+1:]
+			}
+			var helper *ast.FuncDecl
+			for _, d := range file.Decls {
+				if g, ok := d.(*ast.FuncDecl); ok && g.Name.Name == name && g.Body != nil {
+					helper = g
+				}
+			}
+			if helper == nil || !c11ElementwiseCompare(helper) {
+				bad = "the content test calls " + fn + ", which is not a same-file helper comparing its arguments byte by byte"
+				return false
+			}
+		}
+		// polarity: the branch must be the one taken on a difference
+		if u, ok := cond.(*ast.UnaryExpr); ok && u.Op == token.NOT {
+			res = is.Body
+			return false
+		}
+		if b, ok := cond.(*ast.BinaryExpr); ok {
+			r := strings.Join(strings.Fields(c11src(b.Y)), "")
+			if (b.Op == token.GEQ && r == "0") || (b.Op == token.NEQ && r == "-1") || (b.Op == token.GTR && r == "-1") {
+				res = is.Body
+				return false
+			}
+		}
+		bad = "cannot tell that the branch is the one taken on a difference: " + c11src(cond)
+		return false
+	})
+	if res == nil {
+		if bad == "" {
+			bad = "no test of the reply's content against util.DownloadCodecCheck found"
+		}
+		fail("C11: %s: %s", fd.Name.Name, bad)
+	}
+	return res
+}
+
+// c11ReturnsError: the first `return` of the branch hands back a real error: not nil, not a local variable (the
+// only one in scope is the nil err of the exchange), not a nil-preserving wrapper (errors.Wrap/Wrapf/WithStack/
+// WithMessage) around one of those.
+func c11ReturnsError(where string, body *ast.BlockStmt) bool {
+	if body == nil {
+		return false
+	}
+	var ret *ast.ReturnStmt
+	ast.Inspect(body, func(x ast.Node) bool {
+		if r, ok := x.(*ast.ReturnStmt); ok && ret == nil {
+			ret = r
+		}
+		return ret == nil
+	})
+	if ret == nil || len(ret.Results) != 1 {
+		fail("C11: %s: the content-mismatch branch does not return a single value", where)
+		return false
+	}
+	var real func(e ast.Expr) bool
+	real = func(e ast.Expr) bool {
+		switch v := e.(type) {
+		case *ast.ParenExpr:
+			return real(v.X)
+		case *ast.Ident:
+			return false // nil, or a local (err of the exchange, nil on this path)
+		case *ast.SelectorExpr:
+			return true // a package-level error value
+		case *ast.CallExpr:
+			switch c11src(v.Fun) {
+			case "errors.Wrap", "errors.Wrapf", "errors.WithStack", "errors.WithMessage", "errors.WithMessagef":
+				return len(v.Args) > 0 && real(v.Args[0])
+			}
+			return true // errors.New / Errorf / fmt.Errorf ...
+		}
+		return false
+	}
+	return real(ret.Results[0])
+}
+
 func init() {
 	extractors = append(extractors, func(o *out) {
 		b := o.w("C11.lean")
@@ -101,9 +462,12 @@ func init() {
 			}
 			return fd
 		}
+		cen := fileConsts(cf, nil)
+		// the number of attempts of the function's retry loop, whatever the counter is called and however the
+		// condition is written (see c11RetryLoop)
 		tries := func(name string) int {
-			m := c11Match(name, c11src(fn(name)), `for i := 0; !dc\.Closed\(\) && i < (\d+); i\+\+`)
-			return c11Atoi(m[1])
+			_, n := c11FindRetryLoop(name, cf, fn(name), cen)
+			return n
 		}
 
 		// query type order and rounds
@@ -122,8 +486,7 @@ func init() {
 			fail("C11: QueryTypesByPriority not found")
 		}
 		fmt.Fprintf(b, "/-- util/query_types.go QueryTypesByPriority (0 null 1 priv 2 txt 3 srv 4 mx 5 cname 6 aaaa 7 a) -/\ndef typeOrder : List Nat := %s\n", c11NatList(order))
-		m := c11Match("AutoDetectQueryType", c11src(fn("AutoDetectQueryType")), `for timeout := (\d+); !dc\.Closed\(\) && timeout <= (\d+); timeout\+\+`)
-		fmt.Fprintf(b, "/-- AutoDetectQueryType: rounds of the outer loop -/\ndef typeRounds : Nat := %d\n", c11Atoi(m[2])-c11Atoi(m[1])+1)
+		fmt.Fprintf(b, "/-- AutoDetectQueryType: rounds of the outer loop -/\ndef typeRounds : Nat := %d\n", tries("AutoDetectQueryType"))
 		stq := fn("SendQueryTypeTest")
 		var rawTypes []int
 		ast.Inspect(stq, func(x ast.Node) bool {
@@ -168,12 +531,7 @@ func init() {
 			{"upTestTries", "EncodingTestUpstream"}, {"setUpTries", "SetEncodingUpstream"}, {"downTestTries", "TestDownstreamEncoder"},
 			{"setDownTries", "SetEncodingDownstream"}, {"lazyTries", "AutodetectLazyMode"}, {"fragTries", "AutodetectFragmentSize"},
 			{"switchTries", "SwitchFragmentSize"}} {
-			if p[1] == "VersionHandshake" {
-				mm := c11Match(p[1], c11src(fn(p[1])), `for i := 0; !dc\.Closed\(\) && i < (\d+); i\+\+`)
-				fmt.Fprintf(b, "def %s : Nat := %d\n", p[0], c11Atoi(mm[1]))
-			} else {
-				fmt.Fprintf(b, "def %s : Nat := %d\n", p[0], tries(p[1]))
-			}
+			fmt.Fprintf(b, "def %s : Nat := %d\n", p[0], tries(p[1]))
 		}
 
 		// codec orders and pattern counts (0 b32 1 b64 2 b64u 3 b85 4 b91 5 b128 6 raw)
@@ -270,9 +628,8 @@ func init() {
 		fmt.Fprintf(b, "/-- … and the function ends by assigning the downstream encoder unconditionally -/\ndef downAlwaysAssigned : Bool := %v\n", strings.HasPrefix(last, "dc.Serializer.Downstream.Encoder = "))
 
 		// TestDownstreamEncoder: content mismatch returns a real error
-		td := c11src(fn("TestDownstreamEncoder"))
-		mm2 := c11Match("TestDownstreamEncoder", td, `if resp\.Data\[k\] != util\.DownloadCodecCheck\[k\] \{\s*return ([A-Za-z.]+)\(([a-z"]+)`)
-		isErr := !(mm2[1] == "errors.Wrapf" && mm2[2] == "err") && mm2[1] != "nil"
+		tdf := fn("TestDownstreamEncoder")
+		isErr := c11ReturnsError("TestDownstreamEncoder", c11MismatchBranch(cf, tdf))
 		fmt.Fprintf(b, "/-- TestDownstreamEncoder: a reply with different content is reported as an error (not Wrapf(nil)) -/\ndef downMismatchIsError : Bool := %v\n", isErr)
 
 		// serializer: empty answer rejected
